@@ -193,11 +193,36 @@ def _try_payload(base, idx):
     return mk_field(mk_downcast(c.a[1][0], var), 0, "0")
 
 
+_PAYLOAD_MOVES = {
+    # (callee, variant read) -> variant of the argument that carries the same payload
+    ("Result::<T, E>::ok", "Some"): "Ok",
+    ("Result::<T, E>::err", "Some"): "Err",
+    ("Option::<T>::ok_or", "Ok"): "Some",
+    ("Option::<T>::ok_or_else", "Ok"): "Some",
+}
+
+
+def _moved_payload(base, idx):
+    """`(x.ok() as Some).0` is `(x as Ok).0`, `(o.ok_or(e) as Ok).0` is `(o as Some).0`: the payload moves unchanged."""
+    if not (idx == 0 and base.op == "downcast"):
+        return None
+    c = base.a[0]
+    if not (c.op == "call" and isinstance(c.a[0], tuple) and len(c.a[1]) >= 1):
+        return None
+    var = _PAYLOAD_MOVES.get((c.a[0][0], base.a[1]))
+    if var is None:
+        return None
+    return mk_field(mk_downcast(c.a[1][0], var), 0, "0")
+
+
 def mk_field(base, idx, name):
     sp = _split_first_payload(base, idx)
     if sp is not None:
         return sp
     sp = _try_payload(base, idx)
+    if sp is not None:
+        return sp
+    sp = _moved_payload(base, idx)
     if sp is not None:
         return sp
     if base.op == "agg":
@@ -219,8 +244,22 @@ def mk_field(base, idx, name):
     return T("field", base, name)
 
 
+def _known_variant(t):
+    """The variant a value certainly has: an enum aggregate's own, or None for `from_residual` into an Option (the
+    `?` on an Option hands `None` on)."""
+    if t.op == "agg" and t.a[0][0] == "adt" and len(t.a[0]) > 2 and isinstance(t.a[0][2], str):
+        return t.a[0][2]
+    if t.op == "call" and isinstance(t.a[0], tuple) and t.a[0][0] == "FromResidual::from_residual" and t.a[0][1] and str(t.a[0][1][0]).startswith("Option<"):
+        return "None"
+    return None
+
+
 def mk_downcast(base, variant):
     if base.op == "phi":
+        alts = [x for x in base.a[0] if _known_variant(x) in (None, variant)]
+        if alts and len(alts) < len(base.a[0]):
+            # alternatives known to be another variant cannot be the value that is read as `variant`
+            return mk_phi([mk_downcast(x, variant) for x in alts])
         return mk_phi([mk_downcast(x, variant) for x in base.a[0]])
     return T("downcast", base, variant)
 
